@@ -40,6 +40,7 @@
 #include <iomanip>
 #include <iostream>
 #include <optional>
+#include <stdexcept>
 #include <tuple>
 #include <boost/lexical_cast.hpp>
 #include "celma/common/contains.hpp"
@@ -2900,19 +2901,34 @@ protected:
             format( valCopy);
             auto const  pos = boost::lexical_cast< size_t>( valCopy);
             if (pos >= mDestVar.size())
-               mDestVar.resize( (pos + 1) * 1.5);
+               mDestVar.resize( sizeFor( pos));
             mDestVar[ pos] = !mResetFlags;
          } else
          {
             auto const  pos = boost::lexical_cast< size_t>( listVal);
             if (pos >= mDestVar.size())
-               mDestVar.resize( (pos + 1) * 1.5);
+               mDestVar.resize( sizeFor( pos));
             mDestVar[ pos] = !mResetFlags;
          } // end if
       } // end for
    } // TypedArg< std::vector< bool>>::assign
 
 private:
+   /// Returns the new size of the vector when it must grow to hold the given
+   /// position.<br>
+   /// A negative number on the command line is converted into a huge position,
+   /// for which the size cannot be computed (or allocated) anymore.
+   ///
+   /// @param[in]  pos  The position that must fit into the vector.
+   /// @return  The new size, 1.5 times the number of flags needed.
+   /// @throw  std::length_error if the position is too big.
+   size_t sizeFor( size_t pos) const
+   {
+      if (pos >= mDestVar.max_size() / 2)
+         throw std::length_error( "position is too big for a vector< bool>");
+      return (pos + 1) + (pos + 1) / 2;
+   } // TypedArg< std::vector< bool>>::sizeFor
+
    /// Returns if no bit is set.
    ///
    /// @return  \c true if no bit is set.
